@@ -178,6 +178,12 @@ struct Modes {
     r: RealMode,
     /// integer fields deviate
     ints: bool,
+    /// family-local deviation bound: once this many costed alternatives have been taken, the remaining
+    /// fields keep their witness value (no further choice point)
+    max_dev: usize,
+}
+fn may(c: &Chooser, m: Modes) -> bool {
+    c.deviations() < m.max_dev
 }
 
 pub struct GenCase {
@@ -185,30 +191,33 @@ pub struct GenCase {
     pub family: &'static str,
 }
 
-pub const FAMILIES: [&str; 5] = ["single", "pairs", "strings", "reals", "limits"];
+pub const FAMILIES: [&str; 6] = ["single", "pairs", "strings", "reals", "limits", "triples"];
 
 fn i16v(c: &mut Chooser, m: Modes, w: i16, label: &'static str) -> i16 {
-    if m.ints {
+    if m.ints && may(c, m) {
         c.cost_of(&[w, 0, -1, i16::MIN, i16::MAX], label)
     } else {
         w
     }
 }
 fn i32v(c: &mut Chooser, m: Modes, w: i32, label: &'static str) -> i32 {
-    if m.ints {
+    if m.ints && may(c, m) {
         c.cost_of(&[w, 0, -1, i32::MIN, i32::MAX], label)
     } else {
         w
     }
 }
 fn bitsv(c: &mut Chooser, m: Modes, w: [u8; 2], label: &'static str) -> [u8; 2] {
-    if m.ints {
+    if m.ints && may(c, m) {
         c.cost_of(&[w, [0, 0], [0xff, 0xff], [w[1], w[0]]], label)
     } else {
         w
     }
 }
 fn strv(c: &mut Chooser, m: Modes, w: &str, label: &'static str) -> Vec<u8> {
+    if !may(c, m) {
+        return w.as_bytes().to_vec();
+    }
     match m.s {
         StrMode::Fixed => w.as_bytes().to_vec(),
         StrMode::Short => {
@@ -231,6 +240,9 @@ fn strv(c: &mut Chooser, m: Modes, w: &str, label: &'static str) -> Vec<u8> {
     }
 }
 fn realv(c: &mut Chooser, m: Modes, w: f64, label: &'static str) -> u64 {
+    if !may(c, m) {
+        return real_raw(w);
+    }
     match m.r {
         RealMode::Fixed => real_raw(w),
         RealMode::Short => real_raw(c.cost_of(&[w, 0.0, 1.0, up(16.0, -1), -w, up(0.0625, -2)], label)),
@@ -243,7 +255,7 @@ fn realv(c: &mut Chooser, m: Modes, w: f64, label: &'static str) -> u64 {
 }
 fn datesv(c: &mut Chooser, m: Modes, base: i16, label: &'static str) -> [i16; 12] {
     let w: [i16; 12] = std::array::from_fn(|i| base + i as i16);
-    if !m.ints {
+    if !m.ints || !may(c, m) {
         return w;
     }
     match c.cost(7, label) {
@@ -269,7 +281,7 @@ fn witness_points(n: usize, ord: i32) -> Vec<i32> {
 /// coordinate list of a fixed number of points (sref 1, aref 3, text 1, box 5)
 fn coords_fixed(c: &mut Chooser, m: Modes, n: usize, ord: i32, label: &'static str) -> Vec<i32> {
     let w = witness_points(n, ord);
-    if !m.ints {
+    if !m.ints || !may(c, m) {
         return w;
     }
     match c.cost(6, label) {
@@ -284,7 +296,7 @@ fn coords_fixed(c: &mut Chooser, m: Modes, n: usize, ord: i32, label: &'static s
 /// coordinate list of free length (boundary, path, node)
 fn coords_list(c: &mut Chooser, m: Modes, ord: i32, label: &'static str) -> Vec<i32> {
     let w = witness_points(5, ord);
-    if !m.ints {
+    if !m.ints || !may(c, m) {
         return w;
     }
     match c.cost(10, label) {
@@ -409,7 +421,7 @@ fn gen_elem(c: &mut Chooser, kind: Kind, s: Shape, m: Modes, ord: usize) -> REle
 
 fn gen_header(c: &mut Chooser, m: Modes) -> RLib {
     let mut l = RLib::default();
-    l.version = if m.ints { c.cost_of(&[600, 3, 5, 7, 0, -1, i16::MIN, i16::MAX], "version") } else { 600 };
+    l.version = if m.ints && may(c, m) { c.cost_of(&[600, 3, 5, 7, 0, -1, i16::MIN, i16::MAX], "version") } else { 600 };
     l.dates = datesv(c, m, 1001, "libdates");
     l.name = strv(c, m, "wlib", "libname");
     l.units = [realv(c, m, 1e-3, "units0"), realv(c, m, 1e-9, "units1")];
@@ -422,8 +434,8 @@ fn gen_struct_head(c: &mut Chooser, m: Modes, si: usize) -> RStruct {
     s
 }
 
-const SHORT: Modes = Modes { s: StrMode::Short, r: RealMode::Short, ints: true };
-const FIXED: Modes = Modes { s: StrMode::Fixed, r: RealMode::Fixed, ints: false };
+const SHORT: Modes = Modes { s: StrMode::Short, r: RealMode::Short, ints: true, max_dev: 2 };
+const FIXED: Modes = Modes { s: StrMode::Fixed, r: RealMode::Fixed, ints: false, max_dev: 0 };
 
 /// The generator. `families`: which families this property enumerates (indices into FAMILIES).
 pub fn gen_lib(t: Tier, c: &mut Chooser, families: &[usize]) -> GenCase {
@@ -443,7 +455,7 @@ pub fn gen_lib(t: Tier, c: &mut Chooser, families: &[usize]) -> GenCase {
         1 => {
             let mut l = gen_header(c, SHORT);
             let nstructs = c.free(3, "nstructs");
-            let max_e = if nstructs == 2 { t.pick(1, 2) } else { t.pick(2, 3) };
+            let max_e = if nstructs == 2 { 1 } else { 2 };
             let mut ord = 0;
             for si in 0..nstructs {
                 let mut s = gen_struct_head(c, SHORT, si);
@@ -460,7 +472,8 @@ pub fn gen_lib(t: Tier, c: &mut Chooser, families: &[usize]) -> GenCase {
         }
         // strings
         2 => {
-            let m = Modes { s: StrMode::Full(t.pick(3, 5)), r: RealMode::Fixed, ints: false };
+            // one string site deviates at a time (family-local bound 1)
+            let m = Modes { s: StrMode::Full(t.pick(3, 5)), r: RealMode::Fixed, ints: false, max_dev: 1 };
             let kind = Kind::ALL[c.free(7, "kind")];
             let shape = if c.flag("full?") { Shape::Full } else { Shape::Min };
             let mut l = gen_header(c, m);
@@ -471,11 +484,25 @@ pub fn gen_lib(t: Tier, c: &mut Chooser, families: &[usize]) -> GenCase {
         }
         // reals
         3 => {
-            let m = Modes { s: StrMode::Fixed, r: RealMode::Slice, ints: false };
+            let m = Modes { s: StrMode::Fixed, r: RealMode::Slice, ints: false, max_dev: 2 };
             let kind = [Kind::Sref, Kind::Aref, Kind::Text][c.free(3, "kind")];
             let mut l = gen_header(c, m);
             let mut s = gen_struct_head(c, m, 0);
             s.elems.push(gen_elem(c, kind, Shape::Full, m, 0));
+            l.structs.push(s);
+            l
+        }
+        // triples (thorough): one structure with three elements, every ordered triple of kinds, each minimal
+        // or full; a single value deviation
+        5 => {
+            let m = Modes { max_dev: 1, ..SHORT };
+            let mut l = gen_header(c, m);
+            let mut s = gen_struct_head(c, m, 0);
+            for ord in 0..3 {
+                let kind = Kind::ALL[c.free(7, "kind")];
+                let shape = if c.flag("full?") { Shape::Full } else { Shape::Min };
+                s.elems.push(gen_elem(c, kind, shape, m, ord));
+            }
             l.structs.push(s);
             l
         }
